@@ -24,7 +24,7 @@ import irispie as ir
 from .common import Ctx, Rng, rat_of_float, VERIF
 
 DRIVERS = ["C07"]
-EXTRA_PROPS = ['BridgeC07', 'C07Frames']   # refinement bridge from the executable QMat model to the matrix-level theorems (audited with this check)
+EXTRA_PROPS = ['BridgeC07', 'C07Frames', 'QMatSolveBridge']   # refinement bridge from the executable QMat model to the matrix-level theorems (audited with this check)
 LEVEL = "proof"
 MANIFEST = {
     "category": "proof",
@@ -44,7 +44,13 @@ MANIFEST = {
              "solve M e = target - x0 are run on the implementation's own solution matrices (floats converted exactly to rationals), must agree "
              "exactly with each other and within a conditioning-controlled tolerance with Simultaneous.simulate(plan=...), for methods "
              "first_order and stacked_time, anticipated and unanticipated plans with 1-4 targets; plan registers and _get_wrt_spots are compared "
-             "exactly on random op sequences.  An independent oracle on the real code (round trip, re-simulation, cell comparisons) supplies replays."),
+             "exactly on random op sequences.  An independent oracle on the real code (round trip, re-simulation, cell comparisons) supplies replays.  "
+             "Part 2 (Model/PlanFrames, Props/C07Frames): the expansion memo of the solution object as a state machine with invariant memo[k] = -X J^k Ru "
+             "and refinement, by induction over call histories, to the stateless formula (stream `memo`: histories of expand_square_solution on one "
+             "object); the loop over frames as a fold on an immutable input (locality of write-back, every frame sees the original input "
+             "logarithmized exactly once, composition of per-frame statements into the whole-span statement); plan dates handed over as "
+             "collections in any order or as stepped / backward / context-dependent Spans register exactly the grid dates (the plan stream sends "
+             "the form actually used to the model); the inverse used by the model's filter is a checked inverse."),
     "design": "7/C07",
     "note": ("Not covered by theorems: IEEE rounding, numpy.linalg.inv, the first-order solution itself (C01), Newton convergence of stacked_time "
              "(the harness sets step_tolerance=inf so that the residual norm alone decides). Mixed anticipated+unanticipated plans and frames "
